@@ -115,7 +115,7 @@ Print Assumptions C02_blocks_prefix.
 (* FALSE for the original serializer (no re-check of the context after a receive): when another
    goroutine cancels while Scan is blocked, a worker may drop block 1 in its select and the
    serializer still forward block 2: objects 1, 3 are delivered.  Replayed on the real code
-   (17 of 30000 runs with the cancel issued from a filter callback); fixed in 6ff9f52. *)
+   (17 of 30000 runs with the cancel issued from a filter callback); fixed in 413adf1. *)
 Theorem C02_overtake_refuted :
   exists c sched, wf_cfg c = true /\ c_recheck c = false /\
     delivered (fst (run c sched (init c))) = [1%Z; 3%Z] /\ expected (c_inp c) = [1%Z; 2%Z; 3%Z; 4%Z].
